@@ -977,17 +977,56 @@ func (c *codegen) Visit(node ast.Node) ast.Visitor {
 		c.currentSwitch = label
 		c.pushStackLabel(label, 1)
 
-		last := len(n.Body.List) - 1
-		for i := range last {
-			if n.Body.List[i].(*ast.CaseClause).List == nil { // early default
-				n.Body.List[i], n.Body.List[last] = n.Body.List[last], n.Body.List[i]
-				break
-			}
-		}
-
 		startLabels := make([]uint16, len(n.Body.List))
 		for i := range startLabels {
 			startLabels[i] = c.newLabel()
+		}
+		earlyDefault := -1
+		for i := range len(n.Body.List) - 1 {
+			if n.Body.List[i].(*ast.CaseClause).List == nil {
+				earlyDefault = i
+				break
+			}
+		}
+		if earlyDefault >= 0 {
+			// The default clause is not the last one: the expressions of all the
+			// other clauses are tested first (in source order), then the bodies
+			// follow in source order, so that fallthrough enters the textually
+			// next clause.
+			for i := range n.Body.List {
+				cc := n.Body.List[i].(*ast.CaseClause)
+				for j := range cc.List {
+					emit.Opcodes(c.prog.BinWriter, opcode.DUP)
+					ast.Walk(c, cc.List[j])
+					emit.Opcodes(c.prog.BinWriter, eqOpcode)
+					emit.Jmp(c.prog.BinWriter, opcode.JMPIFL, startLabels[i])
+				}
+			}
+			emit.Jmp(c.prog.BinWriter, opcode.JMPL, startLabels[earlyDefault])
+			for i := range n.Body.List {
+				cc := n.Body.List[i].(*ast.CaseClause)
+				c.scope.vars.newScope()
+				c.setLabel(startLabels[i])
+				last := len(cc.Body) - 1
+				fallsThrough := false
+				for j, stmt := range cc.Body {
+					if j == last && isFallthroughStmt(stmt) {
+						fallsThrough = true
+						break
+					}
+					ast.Walk(c, stmt)
+				}
+				if !fallsThrough || i == len(n.Body.List)-1 {
+					emit.Jmp(c.prog.BinWriter, opcode.JMPL, switchEnd)
+				}
+				c.scope.vars.dropScope()
+			}
+			c.setLabel(switchEnd)
+			c.dropStackLabel()
+
+			c.currentSwitch = lastSwitch
+
+			return nil
 		}
 		for i := range n.Body.List {
 			lEnd := c.newLabel()
